@@ -92,10 +92,14 @@ def p_pow(a, n):
 class Conv:
     """z3 real term -> (numerator poly, denominator poly)"""
 
+    _serial = [0]
+
     def __init__(self):
         self.cache = {}
         self.vars = {}        # name -> z3 term
         self.keep = []
+        Conv._serial[0] += 1
+        self.serial = Conv._serial[0]      # cache key (id() of a collected converter is reused by the next one)
 
     def var(self, t):
         name = t.sexpr()
@@ -328,7 +332,7 @@ def triangularise(eqs, budget_s=2.0):
 def equations_of(constraints, conv):
     eqs = []
     for c in constraints:
-        key = (id(conv), c.get_id())
+        key = (conv.serial, c.get_id())
         hit = _EQ_CACHE.get(key)
         if hit is None:
             hit = (_equations_of_one(c, conv), c)
@@ -396,7 +400,16 @@ def shared_conv(tag):
 
 
 def try_certify(constraints, bad, timeout_ms=4000, budget_s=6.0, tag=None):
-    """-> (True, info) if `constraints |= not bad` was certified; (False, reason) otherwise"""
+    """-> (True, info) if `constraints |= not bad` was certified; (False, reason) otherwise. A failure of the search itself
+    (e.g. a cached normal form that belongs to another variable numbering) means "not certified", never an error."""
+    try:
+        return _try_certify(constraints, bad, timeout_ms, budget_s, tag)
+    except (KeyError, IndexError, ValueError, ZeroDivisionError, AttributeError, TypeError) as e:
+        STATS['search_errors'] = STATS.get('search_errors', 0) + 1
+        return False, f'certificate search failed: {type(e).__name__}: {e}'
+
+
+def _try_certify(constraints, bad, timeout_ms=4000, budget_s=6.0, tag=None):
     ab = split_equality(bad)
     if ab is None:
         return False, 'not an equality'
